@@ -75,7 +75,7 @@ func (r *Run) lockKey(fn *Func, x ast.Expr) string {
 	if se, ok := ast.Unparen(x).(*ast.SelectorExpr); ok {
 		if sel, ok := fn.Info().Selections[se]; ok && sel.Kind() == types.FieldVal {
 			if nt, ok := derefNamedT(sel.Recv()); ok {
-				return r.P.OwnerName(nt) + "." + sel.Obj().Name()
+				return r.P.OwnerName(nt) + "." + r.P.FieldName(sel.Obj().(*types.Var))
 			}
 		}
 	}
@@ -615,7 +615,7 @@ func ruleGuardedBy(r *Run) {
 		if keys[i].owner != keys[j].owner {
 			return keys[i].owner < keys[j].owner
 		}
-		return keys[i].field.Name() < keys[j].field.Name()
+		return r.P.FieldName(keys[i].field) < r.P.FieldName(keys[j].field)
 	})
 	sharedOwners := map[string]bool{}
 	for n := range muts {
@@ -629,7 +629,7 @@ func ruleGuardedBy(r *Run) {
 	}
 	guarded := 0
 	for _, k := range keys {
-		name := k.owner + "." + k.field.Name()
+		name := k.owner + "." + r.P.FieldName(k.field)
 		if !sharedOwners[k.owner] {
 			hasOwnMutex := false
 			for n := range muts {
@@ -1180,7 +1180,7 @@ func ruleSplitCriticalSection(r *Run) {
 								released = true
 							}
 						}
-						r.CheckT("E8a", fmt.Sprintf("%s:%s.%s", fn.Name, w.owner, w.field.Name()), !released, path.Events[w.idx].Pos, path,
+						r.CheckT("E8a", fmt.Sprintf("%s:%s.%s", fn.Name, w.owner, r.P.FieldName(w.field)), !released, path.Events[w.idx].Pos, path,
 							"%s.%s is read under %s, the lock is released, and the field is then written under the re-acquired lock: the earlier test may no longer hold (two callers can both pass it)", w.owner, w.field.Name(), k)
 					}
 				}
